@@ -40,3 +40,20 @@ Definition feasible (dom : list (string * vtype)) (cs : list constr) (rho : stri
 
 Definition box_sound (a : astate) (rho : string -> R) : Prop :=
   forall n, in_b (a_get a n) (rho n).
+
+(* ---------- the linear side *)
+From Rooc Require Import Model.Linearize.
+Definition xval (x : xq) : R := match x with Fin q => Q2R q | _ => 0 end.
+Fixpoint dot (coeffs : list xq) (vars : list string) (sigma : string -> R) : R :=
+  match coeffs, vars with
+  | c :: cs, v :: vs => xval c * sigma v + dot cs vs sigma
+  | _, _ => 0
+  end.
+Definition row_holds (vars : list string) (sigma : string -> R) (r : lrow) : Prop :=
+  cmp_holds (lr_cmp r) (dot (lr_coeffs r) vars sigma) (xval (lr_rhs r)).
+Definition sat_linear (L : linmodel) (sigma : string -> R) : Prop :=
+  (forall r, In r (lm_rows L) -> row_holds (lm_vars L) sigma r) /\
+  (forall n t, In (n, t) (lm_domain L) -> in_dom t (sigma n)).
+Definition lin_objective (L : linmodel) (sigma : string -> R) : R :=
+  dot (lm_objective L) (lm_vars L) sigma + xval (lm_offset L).
+Definition agree_on (names : list string) (f g : string -> R) : Prop := forall n, In n names -> f n = g n.
